@@ -148,6 +148,21 @@ pub(crate) trait WalOps:
         unsafe { RecordRef::from_raw(self.item_at_offset(offset)) }
     }
 
+    /// The record at `offset`, unless what is stored there cannot be a whole record of a block
+    /// with `used` bytes in use (the size in its header is smaller than a header or reaches
+    /// beyond `used`): a block whose last write was cut short by a crash ends like that.
+    fn record_within(&self, offset: u64, used: usize) -> Option<RecordRef<'_>> {
+        let header_size = std::mem::size_of::<RecordHeader>();
+        if offset as usize + header_size > used {
+            return None;
+        }
+        let size = unsafe { self.item_at_offset(offset).as_ref().total_size as usize };
+        if size < header_size || offset as usize + size > used {
+            return None;
+        }
+        Some(self.record(offset))
+    }
+
     /// Reconstruct an owned record at a given offset in the block
     ///
     /// # SAFETY
